@@ -169,6 +169,7 @@ func (stmt *Stmt) isPrepared() bool {
 // preparation may be waiting for a free connection, which deadlocks once the pool is exhausted.
 // The statement belongs to the transaction and is closed with it.
 func prepareOnTx(ctx context.Context, conn ConnPool, query string) (Stmt, error) {
+	verifPoint("ps:txdirect", ctx)
 	stmt, err := conn.PrepareContext(ctx, query)
 	if err != nil {
 		return Stmt{}, err
